@@ -34,12 +34,29 @@ def showBuf (b : InlineBuf) : String :=
 
 /-! ### C06.compile -/
 
-def parseTarget : String → Option (Target × Bool)
+def parseTargetName : String → Option (Target × Bool)
   | "dx" => some (.HlslForDirectX, false)
   | "vk" => some (.HlslForVulkan, false)
   | "vkba" => some (.HlslForVulkan, true)
   | "msl" => some (.Msl, false)
   | _ => none
+
+/-- the compile() options after the target: `B` = `support_buffer_address(true)` whatever the target is; `L`
+    (validate_layout_consistency), `S` (source_info), `D` (user defines) are not arguments of anything modelled here:
+    `compile`'s binding_params, `build_pipeline` and the exporters' binding analysis never read them -/
+def parseOpts : Target × Bool → List String → Option (Target × Bool)
+  | r, [] => some r
+  | (t, sba), o :: os =>
+    if o == "B" then parseOpts (t, true) os
+    -- `Q`: a pipeline name given together with no-pipeline mode (the harness only does that in no-pipeline mode): the
+    -- loop over the pipelines is not entered, exactly one module is built, so the name checks after it pass
+    else if o == "L" || o == "S" || o == "D" || o == "Q" then parseOpts (t, sba) os
+    else none
+
+def parseTarget (s : String) : Option (Target × Bool) :=
+  match s.splitOn "+" with
+  | [] => none
+  | name :: opts => (parseTargetName name).bind fun r => parseOpts r opts
 
 def parseMode (s : String) : Option Mode :=
   if s == "all" then some .all
@@ -80,6 +97,11 @@ structure Entry where
   staticSs : Bool := false
   /-- `E`: the first storage keyword is written twice -/
   dupKw : Bool := false
+  /-- `U`: the sized array layer is part of a typedef (`typedef T TA[n]; TA name;`): the BASE type of the declaration
+      is an array, which is what the register-class lookup of the annotation loop sees -/
+  typedefArr : Bool := false
+  /-- `M<n>` (cbuffer): the first member `<name>_v` carries an annotation: 0 a register, 1 a semantic -/
+  memberAnn : Option Nat := none
   deriving Repr
 
 def parseFlag (e : Entry) (f : String) : Option Entry :=
@@ -100,6 +122,15 @@ def parseFlag (e : Entry) (f : String) : Option Entry :=
   else if f == "G" then some { e with groupShared := true }
   else if f == "q" then some { e with staticSs := true }
   else if f == "Y" then some { e with extras := e.extras ++ [none] }
+  else if f == "U" then some { e with typedefArr := true }
+  else if f == "M0" then some { e with memberAnn := some 0 }
+  else if f == "M1" then some { e with memberAnn := some 1 }
+  -- spellings that leave the typed declaration as it is: `const`, a typedef of the object type, a nested namespace,
+  -- declared after the functions / after the pipelines (later entries are at least as late: request order = source
+  -- order), the array length as a constant expression `x<n>`, the kind of an unbound root definition `F<n>`
+  else if f == "C" || f == "T" || f == "N" || f == "l" || f == "L" then some e
+  else if f.startsWith "x" then (f.drop 1).toString.toNat?.bind fun n => if n < 3 then some e else none
+  else if f.startsWith "F" then (f.drop 1).toString.toNat?.bind fun n => if 1 ≤ n && n ≤ 4 then some e else none
   else if f.startsWith "i" then (f.drop 1).toString.toNat?.map fun n => { e with langIndex := some n }
   else if f.startsWith "w" then (f.drop 1).toString.toNat?.map fun n => { e with preGroup := some n }
   else if f.startsWith "A" then
@@ -209,6 +240,30 @@ def Entry.declarator (e : Entry) (joined : Bool) : Declarator Shape :=
       shape := { len := len, peelable := !(e.isUnsized || e.dim2) } }
   | _ => { name := e.name, annotations := [], staticSampler := false, shape := { len := none, peelable := true } }
 
+/-- `U` counts only where the generator can write it (`normalise` of e2e.rs): a declaration with ONE declarator
+    (judged on the raw `j` flag of the next entry) whose own shape is one sized array layer of an object type -/
+def fixTypedefArr : List Entry → List Entry
+  | [] => []
+  | e :: rest =>
+    let nextJoined := match rest with | n :: _ => n.joined | [] => false
+    let arr := match e.decl with | .global _ false (some _) (some _) => true | _ => false
+    { e with typedefArr := e.typedefArr && arr && !e.joined && !e.isUnsized && !e.dim2 && !nextJoined } :: fixTypedefArr rest
+
+/-- the object kind the annotation loop finds on the declaration's base type: none behind an array typedef. Only
+    asked when the declarator carries an annotation -- then `annotate` rejects the declaration at its first
+    annotation (see `Thm.C06.array_typedef_annotation_rejected`) and the kind is never used for anything else;
+    without annotations the typed declaration is the one of `T name[n]` -/
+def Entry.annBase (e : Entry) (k : ObjKind) : Option ObjKind :=
+  if e.typedefArr && !(ownAnns e false).isEmpty then none else some k
+
+/-- the members of a cbuffer the generator writes: `<name>_v` first (with the `M<n>` annotation if any), the padding
+    members carry no annotation -/
+def Entry.members (e : Entry) : List (String × List Annotation) :=
+  match e.decl, e.memberAnn with
+  | .cbuffer _, some 0 => [(e.name ++ "_v", [.register { slot := some (.B, 0), space := none }])]
+  | .cbuffer _, some _ => [(e.name ++ "_v", [.semantic])]
+  | _, _ => [(e.name ++ "_v", [])]
+
 /-- the storage-class keywords in front of the type of the declaration whose first declarator is `h` -/
 def Entry.mods (h : Entry) : List StorageMod :=
   let ms := (if h.isStatic then [if h.groupShared then StorageMod.groupShared else StorageMod.static] else []) ++
@@ -230,12 +285,12 @@ def groupEntries : List Entry →
     match cur, e.joined, e.base? with
     | some (as, b, ms, ds, key), true, some key' =>
       if key == key' then groupEntries es (some (as, b, ms, ds ++ [e.declarator true], key))
-      else flush ++ groupEntries es (some (declAttrs e, some key'.1, e.mods, [e.declarator false], key'))
-    | _, _, some key' => flush ++ groupEntries es (some (declAttrs e, some key'.1, e.mods, [e.declarator false], key'))
+      else flush ++ groupEntries es (some (declAttrs e, e.annBase key'.1, e.mods, [e.declarator false], key'))
+    | _, _, some key' => flush ++ groupEntries es (some (declAttrs e, e.annBase key'.1, e.mods, [e.declarator false], key'))
     | _, _, none =>
       flush ++ (match e.decl with
         | .other => [RootItem.other e.name]
-        | .cbuffer _ => [RootItem.cbuffer e.name (declAttrs e) (ownAnns e false)]
+        | .cbuffer _ => [RootItem.cbuffer e.name (declAttrs e) e.members (ownAnns e false)]
         -- a global that is not an object (`static const int x`)
         | .global _ _ _ _ => [RootItem.globals (declAttrs e) none [.static] [e.declarator false]]) ++ groupEntries es none
 
@@ -273,8 +328,10 @@ def handleCompile (tgt mode pipes decls : String) : String :=
         sequenceOpt ((if pipes == "-" then [] else pipes.splitOn ";").map parsePipe),
         sequenceOpt ((if decls.isEmpty then [] else decls.splitOn ";").map parseEntry) with
   | some (t, sba), some m, some ps, some es =>
-    -- the type checker first: every declarator gets its language-level binding (or the file is rejected)
-    match frontItems (groupEntries es none) with
+    -- the argument check of `compile` comes before anything is read (the same test `compile` of the model starts with)
+    if sba && t != .HlslForVulkan then showErr .invalidArgs else
+    -- then the type checker: every declarator gets its language-level binding (or the file is rejected)
+    match frontItems (groupEntries (fixTypedefArr es) none) with
     | .error e => showFrontErr e
     | .ok nds =>
       if isMetal t && es.any (·.isUnsized) then "unsupported: unsized resource arrays are not implemented by the Metal exporter"
